@@ -62,6 +62,7 @@ type desc struct {
 	NConn int    `json:"nconn,omitempty"`
 	Entry string `json:"entry,omitempty"` // serve | serveconn
 	// stale
+	TLS     bool   `json:"tls,omitempty"`     // gate: TLS connections (perIPTLSConn)
 	Variant string `json:"variant,omitempty"` // direct (the wrapper is closed as closeIdleConns would) | shutdown (by a real Shutdown)
 	Seed    int64  `json:"seed,omitempty"`
 }
@@ -124,9 +125,11 @@ type sconn struct {
 	onClose  func()
 	isTLS    bool // the server side is a tls.Conn over this transport: what the client sees in plaintext is in plain
 	plain    []byte
-	closeErr bool // Close reports an error (after closing): a tls.Conn that cannot send close_notify, a custom net.Conn
-	blocked  bool // a Read is parked waiting for input
-	hold     bool // a parked Read does not notice Close until released (a goroutine that is slow to be scheduled)
+	gate     chan struct{} // when set, Close parks inside until the channel is closed (a slow underlying Close)
+	inClose  int           // Close calls parked at the gate
+	closeErr bool          // Close reports an error (after closing): a tls.Conn that cannot send close_notify, a custom net.Conn
+	blocked  bool          // a Read is parked waiting for input
+	hold     bool          // a parked Read does not notice Close until released (a goroutine that is slow to be scheduled)
 }
 
 func newConn(id int, a net.Addr) *sconn {
@@ -181,6 +184,12 @@ func (c *sconn) Write(p []byte) (int, error) {
 
 func (c *sconn) Close() error {
 	c.mu.Lock()
+	if g := c.gate; g != nil {
+		c.inClose++
+		c.mu.Unlock()
+		<-g
+		c.mu.Lock()
+	}
 	first := !c.closed
 	c.closed = true
 	c.closes++
@@ -1437,6 +1446,145 @@ func runStale(d desc) hlib.Case {
 	return hlib.Case{Coq: coq, Sig: kind, Kind: kind, Size: 4}
 }
 
+// ---- gate: overlapping Close calls on one connection object ----------------------------------------------------------------------
+
+func runGate(d desc) hlib.Case {
+	type hc struct {
+		enter chan net.Conn
+		cmd   chan int
+	}
+	names := []string{"B", "A", "C", "D"}
+	hs := map[string]*hc{}
+	for _, nme := range names {
+		hs[nme] = &hc{make(chan net.Conn, 4), make(chan int, 1)}
+	}
+	s := newServer(desc{Conc: 8, MaxIP: d.MaxIP}, func(ctx *fasthttp.RequestCtx) {
+		h := hs[string(ctx.Path()[1:])]
+		h.enter <- ctx.Conn()
+		if <-h.cmd == cmdFinish {
+			ctx.SetConnectionClose()
+		}
+	})
+	a := addrs[0]
+	stuck := false
+	type cn struct {
+		c    *sconn
+		srv  net.Conn
+		done chan error
+	}
+	mk := func(i int, nme string) *cn {
+		x := &cn{c: newConn(i, a.addr), done: make(chan error, 1)}
+		x.srv = x.c
+		req := fmt.Sprintf("GET /%s HTTP/1.1\r\nHost: h\r\n\r\n", nme)
+		if d.TLS {
+			x.c.isTLS = true
+			x.srv = tls.Server(x.c, serverTLS)
+			cl := tls.Client(&clientEnd{c: x.c}, &tls.Config{InsecureSkipVerify: true})
+			go func() {
+				cl.Write([]byte(req))
+				buf := make([]byte, 4096)
+				for {
+					n, err := cl.Read(buf)
+					x.c.mu.Lock()
+					x.c.plain = append(x.c.plain, buf[:n]...)
+					x.c.mu.Unlock()
+					if err != nil {
+						return
+					}
+				}
+			}()
+		} else {
+			x.c.feed(req)
+		}
+		go func() { x.done <- s.ServeConn(x.srv) }()
+		return x
+	}
+	entered := func(nme string) net.Conn {
+		select {
+		case c := <-hs[nme].enter:
+			return c
+		case <-time.After(waitLimit):
+			stuck = true
+			return nil
+		}
+	}
+	count := func() int64 { return int64(fasthttp.VerifPerIPCounts(s)[a.ip]) }
+	b := mk(0, "B")
+	entered("B")
+	av := mk(1, "A")
+	wrapA := entered("A")
+	// A's underlying Close will be slow; the server answers Connection: close and starts closing A
+	g := make(chan struct{})
+	av.c.mu.Lock()
+	av.c.gate = g
+	av.c.mu.Unlock()
+	hs["A"].cmd <- cmdFinish
+	if !waitFor(func() bool { av.c.mu.Lock(); defer av.c.mu.Unlock(); return av.c.inClose >= 1 }) {
+		stuck = true
+	}
+	// meanwhile somebody else closes the same connection object (a handler that kept ctx.Conn(), closeIdleConns, ...)
+	second := make(chan struct{})
+	go func() {
+		if wrapA != nil {
+			wrapA.Close()
+		}
+		close(second)
+	}()
+	quiet()
+	mid := count()
+	close(g)
+	select {
+	case <-av.done:
+	case <-time.After(waitLimit):
+		stuck = true
+	}
+	select {
+	case <-second:
+	case <-time.After(waitLimit):
+		stuck = true
+	}
+	quiet()
+	after := count()
+	// two more connections of the address: with B still open and the limit 2 exactly one is admitted
+	outcome := func(x *cn, nme string) (served bool, rejected bool) {
+		select {
+		case <-hs[nme].enter:
+			return true, false
+		case err := <-x.done:
+			x.done <- err
+			return false, err == fasthttp.ErrPerIPConnLimit
+		case <-time.After(waitLimit):
+			stuck = true
+			return false, false
+		}
+	}
+	cv := mk(2, "C")
+	cServed, _ := outcome(cv, "C")
+	dv := mk(3, "D")
+	dServed, dRejected := outcome(dv, "D")
+	// drain
+	hs["B"].cmd <- cmdFinish
+	<-b.done
+	if cServed {
+		hs["C"].cmd <- cmdFinish
+		<-cv.done
+	}
+	if dServed {
+		hs["D"].cmd <- cmdFinish
+		<-dv.done
+	}
+	quiet()
+	final := count()
+	coq := fmt.Sprintf("(CGate %s %s %s %s %s %s %s)", hlib.Z(int64(d.MaxIP)), hlib.N(uint64(a.ip)), hlib.Z(mid), hlib.Z(after),
+		hlib.Bool(cServed), hlib.Bool(dRejected), hlib.Z(final))
+	kind := fmt.Sprintf("gate-tls=%v-lim%d", d.TLS, d.MaxIP)
+	if stuck {
+		kind += "-stuck"
+		coq = "CUnstable"
+	}
+	return hlib.Case{Coq: coq, Sig: kind, Kind: kind, Size: 8}
+}
+
 // ---- generation ---------------------------------------------------------------------------------------------------
 
 func genReplay(r *rand.Rand) desc {
@@ -1631,6 +1779,10 @@ func corpus() []desc {
 		{Mode: "replay", Conc: 2, MaxIP: 0, EndStop: 1, Ops: ops("servestart accept:0 accept:1 accept:2 finish:1 accept:2 servestop:0 finish:0 finish:0")},
 		// regression for the repaired finding peripconn-stale-close-hits-recycled-wrapper (bf2f4e5): a Close through an old reference
 		// to a wrapper object must not reach the connection that arrived in between (wrappers are not recycled any more)
+		// overlapping Close calls on one connection object while its underlying Close is slow: one unit is given back, not two
+		{Mode: "gate", MaxIP: 2},
+		{Mode: "gate", MaxIP: 2, TLS: true},
+		{Mode: "gate", MaxIP: 3},
 		{Mode: "stale", Variant: "direct"},
 		{Mode: "stale", Variant: "shutdown"},
 		{Mode: "stress", Conc: 3, MaxIP: 2, NConn: 64, Entry: "serve", Seed: 11},
@@ -1645,6 +1797,8 @@ func run(d desc) hlib.Case {
 		return runStress(d)
 	case "stale":
 		return runStale(d)
+	case "gate":
+		return runGate(d)
 	default:
 		return runReplay(d)
 	}
